@@ -25,7 +25,7 @@ pub const SPEC: PropSpec = PropSpec {
     required: &["reader.slice", "reader.buffered", "reader.async", "nsreader.slice", "nsreader.buffered", "nsreader.async", "accessor_calls", "syntax_errors_then_eof", "illformed_errors_continued", "attr_items"],
     run,
     replay,
-    thorough_layers: &[("plain", 100), ("asan", 20), ("valgrind", 1), ("miri", 1)],
+    thorough_layers: &[("plain", 100), ("asan", 20), ("valgrind", 1), ("miri", 1), ("fuzz", 60)],
     quick_layers: &[],
     post: None,
 };
@@ -656,6 +656,9 @@ fn flush(ctx: &mut Ctx, loc: &Local) {
 }
 
 fn replay(case: &Value, _ctx: &mut Ctx) -> Option<String> {
+    if let Some(h) = case.get("fuzz").and_then(|v| v.as_str()) {
+        return fuzz_entry(&crate::ctx::unhex(h)).err();
+    }
     let input = input_from_json(&case["input"]);
     let cfg = case["config"].as_u64().unwrap_or(0) as u8;
     let mode = Mode::from(case["mode"].as_str().unwrap_or(""));
@@ -665,5 +668,21 @@ fn replay(case: &Value, _ctx: &mut Ctx) -> Option<String> {
     match guarded(|| drive(&input, cfg, mode, &cuts, &pending, &mut loc)) {
         Ok(r) => r.err(),
         Err(p) => Some(p),
+    }
+}
+
+/// libFuzzer entry: byte 0 = configuration, byte 1 = mode / piece size, rest = input
+pub fn fuzz_entry(data: &[u8]) -> Result<(), String> {
+    if data.len() < 2 {
+        return Ok(());
+    }
+    let cfg = data[0] & 0x7F;
+    let mode = [Mode::ReaderSlice, Mode::NsSlice, Mode::ReaderBuffered, Mode::NsBuffered, Mode::ReaderAsync, Mode::NsAsync][(data[1] % 6) as usize];
+    let input = &data[2..];
+    let cuts = cuts_for_piece(input.len(), 1 + (data[1] / 6 % 5) as usize, 0);
+    let mut loc = Local::default();
+    match guarded(|| drive(input, cfg, mode, &cuts, &[1, 0, 2], &mut loc)) {
+        Ok(r) => r,
+        Err(p) => Err(p),
     }
 }
